@@ -434,11 +434,23 @@ def main(argv=None):
 
     # ---- survey pass -----------------------------------------------------------
     tasks = []
+    chunk_n = {}
     for s in streams:
         n = max(1, int(s.budget[args.tier] * args.scale))
-        for w in range(nW):
-            tasks.append((prop, s.name, args.tier, seed * 1000 + w, w, nW, n,
-                          "survey", None, None))
+        if s.kind == "enum":
+            total = s.make(args.tier)[0]
+            chunks = max(1, -(-total // (nW * max(1, s.chunk))))
+            for sh in range(nW * chunks):
+                tasks.append((prop, s.name, args.tier, seed * 100000 + sh, sh, nW * chunks, n,
+                              "survey", None, None))
+            continue
+        chunks = 1 if s.kind == "fuzz" else max(1, -(-n // max(1, s.chunk)))
+        per = -(-n // chunks)
+        chunk_n[s.name] = per
+        for c in range(chunks):
+            for w in range(nW):
+                tasks.append((prop, s.name, args.tier, seed * 100000 + c * 100 + w, c * nW + w, nW, per,
+                              "survey", None, None))
     with ctx.Pool(nW, maxtasksperchild=1) as pool:
         results = pool.map(run_task, tasks, chunksize=1)
 
@@ -494,7 +506,7 @@ def main(argv=None):
         s = by_name[sname]
         if s.kind in ("enum", "fuzz") or key == "hang":
             continue
-        n = max(1, int(s.budget[args.tier] * args.scale))
+        n = chunk_n.get(sname) or max(1, int(s.budget[args.tier] * args.scale))
         shrink_tasks.append(((sname, key), (prop, sname, args.tier, b["seed"], b["widx"], nW,
                                             n, "shrink", key, shrink_budget)))
     shrunk = {}
